@@ -559,7 +559,7 @@ func init() {
 			"fatal error is attributed to its case by the driver. Panics are also asserted in every other profile. distinct_nontrivial = distinct (entry point) x runs is not " +
 			"meaningful here: it counts distinct entry points reached",
 		Cases: func(master uint64, tier string) []Case {
-			n := 480
+			n := 800
 			if tier == "thorough" {
 				n = 20000
 			}
